@@ -239,7 +239,7 @@ func respSig(o *rt.Outcome) string {
 
 func c11(ctx *core.Ctx) {
 	quietLogs()
-	ctx.Rule("generated histories of 4-20 operations over {Add, Remove (also repeated), Route, RemoveRoute (also of a route that is not there), Handle, HandleWithFilter, a duplicate Handle whose documented panic the caller survives} on a root-path pool built to collide (/, '', /a, /a/, /a/b, /a/{x}, /a/{x}/b, /a/{y}/c, /ab, /{z}, /u, /u/, /u/{a}, /users/{id}/a, /users/{id}/b, /{p}/{q} ...), dynamic and static services, duplicate (method,path) routes with different Produces, both routers, with and without the OPTIONS filter. After EVERY operation a fresh container is built from the model (new objects, same order) and ~250 probe requests (hits, near misses, handler patterns, strays; GET/POST/OPTIONS/DELETE) are answered via ServeHTTP and Dispatch by both; complete responses must be equal. Add/Handle must not panic. Non-trivial = a history prefix containing a Remove/RemoveRoute or >= 2 services; distinct by (operation kind, number of services, root-on-'/' present, handlers present, router).")
+	ctx.Rule("generated histories of 4-20 operations over {Add, Remove (also repeated), Route, RemoveRoute (also of a route that is not there), Handle, HandleWithFilter, a duplicate Handle whose documented panic the caller survives} on a root-path pool built to collide (/, '', /a, /a/, /a/b, /a/{x}, /a/{x}/b, /a/{y}/c, /ab, /{z}, /u, /u/, /u/{a}, /users/{id}/a, /users/{id}/b, /{p}/{q} ...), dynamic and static services, now and then 33 or 70 further services registered first, duplicate (method,path) routes with different Produces, both routers, with and without the OPTIONS filter. After EVERY operation a fresh container is built from the model (new objects, same order) and ~250 probe requests (hits, near misses, handler patterns, strays; GET/POST/OPTIONS/DELETE) are answered via ServeHTTP and Dispatch by both; complete responses must be equal. Add/Handle must not panic. Non-trivial = a history prefix containing a Remove/RemoveRoute or >= 2 services; distinct by (operation kind, number of services, root-on-'/' present, handlers present, router).")
 	ctx.Assume("histories never add a duplicate root path (the library exits by contract) and never register a handler pattern twice")
 	hists := ctx.N(250, 20000)
 	nextID := 0
@@ -270,6 +270,26 @@ func c11(ctx *core.Ctx) {
 				}
 			}
 			return strings.Join(segs, "/")
+		}
+		if hi%50 == 7 || hi%50 == 32 {
+			// a wide container: 33 or 70 WebServices are registered before the history proper starts
+			wide := []int{33, 70}[r.Intn(2)]
+			for i := 0; i < wide; i++ {
+				root := fmt.Sprintf("/m%d", i)
+				switch i % 7 {
+				case 3:
+					root += "/{x}"
+				case 5:
+					root = fmt.Sprintf("/m%d/sub", i-1) // nests below its neighbour
+				}
+				nextID++
+				s := &mSvc{Root: root, Dynamic: i%2 == 0, Routes: []mRoute{{ID: nextID, Method: "GET", Path: r.Pick(c11Paths)}}}
+				s.ws = newWS(s)
+				m.Svcs = append(m.Svcs, s)
+				c.Add(s.ws)
+			}
+			opsLog = append(opsLog, fmt.Sprintf("Add x %d (/m0 ... /m%d)", wide, wide-1))
+			ctx.Count("wide_histories", 1)
 		}
 		for oi := 0; oi < nops; oi++ {
 			// choose an applicable operation
